@@ -12,14 +12,25 @@ Proof. unfold round_up. intros H. nia. Qed.
 Lemma round_up_mod x a : 0 < a -> round_up x a mod a = 0.
 Proof. unfold round_up. intros H. apply N.mod_mul. lia. Qed.
 
-(* the reference side hands out exactly as many elements as the allocation side reserved *)
-Lemma view_counts_match hl nl :
+(* the reference side hands out exactly as many elements as the allocation side reserved.
+   Stated under nl <= hl: MatrixLayout::new (the only constructor of the layout fieds_from_ptr reads) begins with
+   `assert!(haystack_len >= needle_len)`, so the two sides only ever meet under it.  The hypothesis is needed
+   because the count expressions are TRANSLATED from matrix.rs and usize/N subtraction truncates: `hl + 1 - nl` and
+   `hl - nl + 1` are equal exactly when nl <= hl, and which spelling each side uses is the library's business.
+   The proof is by arithmetic on the unfolded expressions (not by reflexivity), so it does not depend on the
+   two sides being written identically. *)
+Ltac counts_arith :=
+  unfold view_count_haystack, view_count_bonus, view_count_rows, view_count_score, view_count_matrix,
+         layout_count_haystack, layout_count_bonus, layout_count_rows, layout_count_score, layout_count_matrix;
+  first [ reflexivity | lia | nia | (f_equal; lia) | (f_equal; nia) ].
+
+Lemma view_counts_match hl nl : nl <= hl ->
   view_count_haystack hl nl = layout_count_haystack hl nl /\
   view_count_bonus hl nl = layout_count_bonus hl nl /\
   view_count_rows hl nl = layout_count_rows hl nl /\
   view_count_score hl nl = layout_count_score hl nl /\
   view_count_matrix hl nl = layout_count_matrix hl nl.
-Proof. repeat split; reflexivity. Qed.
+Proof. intros Hle. repeat split; counts_arith. Qed.
 
 Lemma layout_views_ok : C10_layout_stmt.
 Proof.
@@ -27,7 +38,7 @@ Proof.
   unfold slab_alloc_ok in Hok. apply andb_prop in Hok. destruct Hok as [_ Hsz].
   apply N.leb_le in Hsz. unfold layout_size in Hsz.
   unfold layout_offsets, view_lengths. lazy beta iota zeta.
-  destruct (view_counts_match hl nl) as (E1 & E2 & E3 & E4 & E5).
+  destruct (view_counts_match hl nl Hle) as (E1 & E2 & E3 & E4 & E5).
   rewrite E1, E2, E3, E4, E5.
   pose proof (round_up_ge (layout_count_haystack hl nl * char_size hr + layout_count_bonus hl nl) 2 ltac:(lia)) as R2.
   pose proof (round_up_ge (round_up (layout_count_haystack hl nl * char_size hr + layout_count_bonus hl nl) 2
